@@ -151,11 +151,21 @@ func checkReset(w *core.World, st *core.Step, prop string) {
 		posClass = "two-digit"
 	}
 	if e.Prefix == "0000000" {
-		// the entry names no commit (zero id): refusing without change is what is left
-		if prop == "C08" {
-			refuse("zero-id-entry")
+		// shown as seven zeros: the entry names no commit (forty zeros in the journal) -- or a commit whose id happens to
+		// begin with seven zeros. The journal file itself, decoded independently, tells which.
+		zero := true
+		if i := len(pre.LogHEAD) - 1 - n; i >= 0 && i < len(pre.LogHEAD) {
+			if f := strings.SplitN(pre.LogHEAD[i], " ", 3); len(f) == 3 && gitfmt.IsHex40(f[1]) && f[1] != strings.Repeat("0", 40) {
+				zero = false
+			}
 		}
-		return
+		if zero {
+			// refusing without change is what is left
+			if prop == "C08" {
+				refuse("zero-id-entry")
+			}
+			return
+		}
 	}
 	target, why := resolvePrefix(pre, e.Prefix)
 	if target == "" {
@@ -362,6 +372,31 @@ func runC08(c *core.Ctx) {
 		k.Hostile = 3
 		k.MaxContent = 3000
 		k.Init()
+		if c.GoitVFS != "" && (w.Hist == 6 || (c.Thorough() && w.Hist%700 == 6)) {
+			// a commit whose id begins with seven zeros (what listings show for "no commit"): with the clock pinned the
+			// root commit of this tiny repository has a mined message that gives it such an id
+			oldBin := w.GoitBin
+			w.GoitBin = c.GoitVFS
+			w.Env = map[string]string{"VERIF_NOW": "1700000000"}
+			w.Write("a.txt", []byte("two\n"))
+			k.goit("add", "a.txt")
+			k.goit("commit", "-m", "nonce 21966968")
+			if strings.HasPrefix(w.State().Repo().HeadCommit(), "0000000") {
+				c.Count("C08.commit-id-with-seven-leading-zeros")
+			}
+			w.GoitBin = oldBin
+			w.Env = nil
+			k.goit("switch", "-c", "side")
+			w.Write("a.txt", []byte("three\n"))
+			k.Do("commit-all")
+			w.Write("a.txt", []byte("scribble\n"))
+			k.goit("reflog")
+			k.goit("reset", "--hard", "HEAD@{1}")
+			k.goit("reflog")
+			k.goit("reset", "--mixed", "HEAD@{3}")
+			k.goit("reflog")
+			k.goit("reset", "--soft", "HEAD@{0}")
+		}
 		ncommits := 2 + w.Rng.IntN(5)
 		if w.Hist%6 == 0 {
 			ncommits = 11 + w.Rng.IntN(3) // journal long enough for positions >= 10
